@@ -271,6 +271,13 @@ def check(ctx):
         fails = [(rv, states) for (rv, states, recv, slp) in summ[c] if rv != frozenset([0])]
         ctx.check(bool(fails) and all(states == frozenset([str(st["RTR_ERROR_TRANSPORT"])]) for rv, states in fails), "C08.R5", "%s:send-failure" % c,
                   "rtrlib/rtr/packets.c", "failure outcomes: %s" % [(sorted(rv) if rv else rv, sorted(states)) for rv, states in fails], key="C08.R5:%s" % c)
+    from specs import C05, C07
+    with ctx.shared({"C05.R6": ("C08.R6", "recovery state: request_session_id is cleared only by a completed synchronisation, so after any failed "
+                                "exchange the client restarts from a query that matches the data it holds"),
+                     "C07.R3": ("C08.R7", "expiry as last-resort recovery: the purge empties both tables and forces a Reset Query "
+                                "(request_session_id = true, serial 0)")}):
+        C05.r6(ctx, retsets)
+        C07.r3(ctx, retsets)
     ctx.not_decided("the protocol-time bound itself and equality of the records with the cache's data set")
     ctx.not_decided("termination of user-supplied transports")
     ctx.assume("sleep(retry_interval) and blocking receives let time advance; retry_interval >= 1 (C17.R4)")
